@@ -638,3 +638,68 @@ h_rt_stream!(c13_t_rtstream_bvdyn3_l100, 16, con, Bv, bvdyn3(100), 14);
 h_rt_bytes!(c13_t_rtbytes_bvdyn3_l100, 16, con, Bv, bvdyn3(100));
 h_rt_stream!(c13_t_rtstream_bvdyn3_l185, 27, con, Bv, bvdyn3(185), 25);
 h_rt_bytes!(c13_t_rtbytes_bvdyn3_l185, 27, con, Bv, bvdyn3(185));
+
+// ---------------------------------------------------------------------------------------------
+// write() into a writer that accepts only part of a buffer per call, and into a writer that is
+// too small: exactly ceil(len/8) bytes must still arrive (write_all semantics), resp. an Err.
+// ---------------------------------------------------------------------------------------------
+pub struct Chunky {
+    pub buf: [u8; 24],
+    pub pos: usize,
+    pub max: usize,
+    pub room: usize,
+}
+impl std::io::Write for Chunky {
+    fn write(&mut self, b: &[u8]) -> std::io::Result<usize> {
+        let mut k = if b.len() < self.max { b.len() } else { self.max };
+        if k > self.room - self.pos {
+            k = self.room - self.pos;
+        }
+        let mut i = 0;
+        while i < k {
+            self.buf[self.pos + i] = b[i];
+            i += 1;
+        }
+        self.pos += k;
+        Ok(k)
+    }
+    fn flush(&mut self) -> std::io::Result<()> {
+        Ok(())
+    }
+}
+
+macro_rules! h_write_chunky {
+    ($name:ident, $unw:literal, $a:expr, $max:literal, $room:literal) => {
+        harness!($name, $unw, {
+            let (a, ra) = $a;
+            let e = nd::endianness();
+            let n = ra.len;
+            let nb = nbytes(n);
+            assert!(nb <= 24, "HARNESS: sink too small for this scope");
+            let mut wr = Chunky { buf: [0xA5; 24], pos: 0, max: $max, room: $room };
+            w!(n % 8 != 0 && ra.v.bit(n - 1), "length not a multiple of 8 with the top bit set");
+            match a.write(&mut wr, e) {
+                Ok(()) => {
+                    assert!($room >= nb, "C13: write into a writer that is too small returned Ok");
+                    assert!(wr.pos == nb, "C13: write through a partial writer does not emit exactly ceil(len/8) bytes");
+                    assert!(value_of(&wr.buf[..], nb, is_big(e)) == ra.v, "C13: bytes that arrived through a partial writer are not the serialisation");
+                }
+                Err(er) => {
+                    std::mem::forget(er);
+                    assert!($room < nb, "C13: write failed although the writer accepts every byte eventually");
+                }
+            }
+            assert!(a.into_raw() == ra, "C13: write modified the vector");
+        });
+    };
+}
+// 4 bytes per call, enough room
+h_write_chunky!(c13_q_writechunk_bvfix_l100, 16, bvfix(100), 4, 24);
+h_write_chunky!(c13_q_writechunk_bvdyn2_l70, 12, bvdyn2(70), 4, 24);
+h_write_chunky!(c13_q_writechunk_f64x2_l100, 16, f64x2(100), 4, 24);
+h_write_chunky!(c13_q_writechunk_bvd2_l70, 12, bvd2(70), 4, 24);
+h_write_chunky!(c13_q_writechunk_f8x3_l21, 6, f8x3(21), 1, 24);
+// writer too small: must be an error
+h_write_chunky!(c13_q_writeshort_bvfix_l77, 13, bvfix(77), 24, 6);
+h_write_chunky!(c13_q_writeshort_bvd2_l70, 12, bvd2(70), 24, 8);
+h_write_chunky!(c13_t_writeshort_f8x3_l21, 6, f8x3(21), 24, 2);
